@@ -30,7 +30,15 @@ Asm(is) == IF is = <<>> THEN <<>> ELSE Enc(Head(is)) \o Asm(Tail(is))
 SeqEffect(i) == Effect(i)
 VARIABLES is, depth, bdepth
 vars == <<is, depth, bdepth>>
-Init == is = <<>> /\ depth = 0 /\ bdepth = 0
+\* hand-assembled programs in which a backward jump is *executed* and the run still ends (the enumeration above is too short for
+\* that): a flag in slot 0, tested at the loop head, cleared in the body
+\*   0 ONE | 1 GETLOCAL 0 | 3 JFALSE +11 (-> 17) | 6 POP | 7 GETLOCAL 0 | 9 PRINT | 10 ZERO | 11 SETLOCAL 0 | 13 POP | 14 LOOP 16 (-> 1) | 17 POP | 18 POP | RET
+Loop1 == << I("ONE", 0, 0), I("GETLOCAL", 0, 0), I("JFALSE", 11, 0), I("POP", 0, 0), I("GETLOCAL", 0, 0), I("PRINT", 0, 0), I("ZERO", 0, 0),
+            I("SETLOCAL", 0, 0), I("POP", 0, 0), I("LOOP", 16, 0), I("POP", 0, 0), I("POP", 0, 0) >>
+\* the same with a NOP in the body (the distances one larger) and the flag printed before the test
+Loop2 == << I("ONE", 0, 0), I("GETLOCAL", 0, 0), I("PRINT", 0, 0), I("GETLOCAL", 0, 0), I("JFALSE", 9, 0), I("POP", 0, 0), I("NOP", 0, 0), I("ZERO", 0, 0),
+            I("SETLOCAL", 0, 0), I("POP", 0, 0), I("LOOP", 17, 0), I("POP", 0, 0), I("POP", 0, 0) >>
+Init == is \in {<<>>, Loop1, Loop2} /\ depth = 0 /\ bdepth = 0
 Grow == /\ Len(is) < MaxInstr
         /\ \E i \in Pool :
              /\ depth >= NeedsDepth(i)
